@@ -539,7 +539,7 @@ func init() {
 			tknHeaderEdit,
 		}, AwareN: 224})
 	Register(&Entry{Name: "tkn20.Policy.ExtractFromCiphertext+CouldDecrypt", Seeds: 1, Cost: 10,
-		Aware: []func([]byte, int) []byte{tknFormulaEdge, func(v []byte, a int) []byte { return tknRefit(v, "header", a) }, tknHeaderEdit}, AwareN: 224,
+		Aware: []func([]byte, int) []byte{tknFormulaEdge, func(v []byte, a int) []byte { return tknRefit(v, "header", a) }, tknHeaderEdit, tknGateCount}, AwareN: 224,
 		Valid: func(seed uint64) []byte { tknSetup(); return tknCache.ct },
 		Reuse: func() func(in []byte) Result {
 			var p tkn20.Policy
@@ -721,6 +721,37 @@ func tknFlagBytes(v []byte, a int) []byte {
 	}
 	v[offs[a%len(offs)]] ^= 1
 	return v
+}
+
+// tknGateCount rewrites the 16-bit gate count of the formula inside a ciphertext to values for
+// which 2+7*n, computed in 16 bits, wraps around to a small number (n = 9363: 2+7n = 65543),
+// and to the extremes.
+func tknGateCount(v []byte, a int) []byte {
+	le := func(b []byte) int { return int(b[0]) | int(b[1])<<8 }
+	for off := 0; off+2 <= len(v); off++ {
+		n := le(v[off:])
+		if n < 1 || n > 64 || off+2+7*n > len(v) {
+			continue
+		}
+		ok := true
+		for i := 0; i < n && ok; i++ {
+			g := v[off+2+7*i:]
+			in0, in1, out := le(g[1:]), le(g[3:]), le(g[5:])
+			if g[0] > 1 || in0 > 2*n-1 || in1 > 2*n-1 || out < n+1 || out > 2*n || in0 == in1 {
+				ok = false
+			}
+		}
+		if !ok {
+			continue
+		}
+		if a < 0 {
+			a = -a
+		}
+		val := []int{9363, 9362, 9364, 18725, 18726, 28088, 37450, 0xffff, 0x8000, 0}[a%10]
+		v[off], v[off+1] = byte(val), byte(val>>8)
+		return v
+	}
+	return nil
 }
 
 // tknGateClass sets the class byte of a gate of the formula inside a ciphertext to a value
